@@ -235,7 +235,7 @@ func (f *Frame) frameObligations(fc *FuncContract, entry *State, ex *exitRec, en
 		c.nfresh++
 		r := T(ks, fmt.Sprintf("r!q%d", c.nfresh))
 		var conds []Term
-		if ks == SInt && !strings.HasPrefix(k, "X|") {
+		if ks == SInt && (!strings.HasPrefix(k, "X|") || c.refKeyedGhost[k]) {
 			conds = append(conds, app(SBool, "<=", r, entry.alloc))
 		}
 		for _, o := range objs {
